@@ -25,7 +25,7 @@ MANIFEST = {
 
 
 def check(run):
-    broken, findings, results = il.standard(run, "C09", "c09", extra_subs=("stress",))
+    broken, findings, results = il.standard(run, "C09", "c09", extra_subs=("stress", "wire"))
     run.coverage["rule"] = (
         "histories = lists of operations on one handler built with (N, maxPending): exhaustive over an alphabet of sends (managed, explicit in "
         "and out of [1,N]), deliveries (final / non-final, known / unknown id), consumer read and Close up to the depth in the group name for "
@@ -37,6 +37,10 @@ def check(run):
         "then the late frames for that id arrive: directed, every continuation to depth 3 after the failure, and random histories biased "
         "towards explicit ids inside [1,N]. Every call into the library runs under a watchdog (a call that never returns is reported as "
         "send-blocked / receiver-blocked / close-hangs with the history and the step). "
+        "wiring-sessions (wire, exercised): real CqlClientConnection objects configured with MaxInFlight != MaxPending in both directions "
+        "(2/5, 5/2, 1/3, 3/1): the peer reads and does not answer; every stream id on the wire is in 1..MaxInFlight and unique, exactly "
+        "MaxInFlight managed requests are accepted and the next is refused with an error, after all answers MaxInFlight more are accepted "
+        "(verdicts over-capacity, under-capacity, id-out-of-bounds, duplicate-id, recycling, send-blocked). "
         "non-trivial = a history in which at least one request was accepted and at least one other kind of outcome occurred; distinct = distinct "
         "(N, maxPending, mode, operation list)")
     il.verdict(run, "C09", broken, findings)
